@@ -443,7 +443,7 @@ func c13World(t *testing.T, r *simcore.Run) any {
 				return
 			}
 			w.dc.failHostAS = false
-			daemonDown := daemonFaults && tp.Bool(1, 4, "daemondown")
+			daemonDown := (daemonFaults && tp.Bool(1, 4, "daemondown")) || w.srvNoDaemon
 			if daemonDown {
 				w.dc.failHostAS = true
 				r.Fault("drkey-daemon-unavailable")
